@@ -58,6 +58,12 @@ def c06(ctx):
             if mk is not None and env.lower_bound > mk:
                 yield F("lower-bound-exceeds-reached-makespan", f"LB {env.lower_bound} > makespan {mk}", si)
                 return
+            # "... so the normalised terminal reward never exceeds its nominal maximum": the sparse weight
+            # (the shaping term is never positive)
+            nominal = ctx.scen["cfg"].get("sparse", 1)
+            if rec.reward is not None and not rec.truncated and rec.reward > nominal + 1e-9:
+                yield F("terminal-reward-exceeds-nominal-maximum", f"reward {rec.reward} > sparse weight {nominal} (makespan {mk}, LB {env.lower_bound}, T_max {env.max_allowed_time})", si)
+                return
 
 
 # ---------------------------------------------------------------------------------------- C13
